@@ -341,6 +341,11 @@ func (gg *GenGrammar) writeHarness(spec *GramSpec) error {
 		fmt.Fprintf(&b, "\tv%s %q\n", vn, gg.Pkg+"/"+vn)
 	}
 	b.WriteString(")\n\nvar _ = hl.NSw\nvar _ = strconv.Quote\n\n")
+	for _, vn := range spec.Variants {
+		if _, bad := gg.Broken[vn]; !bad {
+			fmt.Fprintf(&b, "var _ = v%s.New\n", vn) // not every grammar has an entry for every variant
+		}
+	}
 	fmt.Fprintf(&b, "// grammar %s (%s)\n", gg.G.Hash(), gg.G.Tag)
 	for _, line := range strings.Split(strings.TrimSpace(gg.G.PegText("x", false)), "\n") {
 		b.WriteString("// " + line + "\n")
